@@ -99,7 +99,7 @@ def program(rng, prof):
             p.append("SRate %d" % rng.randint(0, 4))
             if rng.random() < 0.4:
                 p.append("CFcMax %d" % rng.randint(0, 2))
-            p.append("Rep %d %s %s" % (rng.choice([3, 7, 49, 50, 51, 120]), rng.choice(["CSend", "CSendv"]), ln(rng, SMALL)))
+            p.append("Rep %d %s %s" % (rng.choice([3, 7, 49, 50, 51, 120, 290]), rng.choice(["CSend", "CSendv"]), ln(rng, SMALL)))
             for _ in range(rng.randint(2, 14)):
                 p.append(top_op(rng, SMALL + ["4096"], w))
         p += drain(rng)
@@ -137,6 +137,17 @@ def directed():
         # request bursts under the three rates: 50 / 5 / 1 per dispatch
         for rl in (0, 1, 2):
             P.append([c, "SRate %d" % rl, "Rep 120 CSend 16", "Rep 8 SPoll", "Rep 60 CSendv 17", "Rep 130 SPoll", "SPoll"])
+        # request bursts beyond what the notification socket takes (shm: ~278 one-byte writes): the send call blocks until the
+        # server has read some -- and must then report success, the request being queued already
+        for rl in (0, 1, 2):
+            P.append([c, "SRate %d" % rl, "Rep 330 CSend 16", "Rep 12 SPoll", "Rep 200 CSendv 17", "Until 700 SPoll", "SPoll"])
+        P.append([c, "Rep 285 CSend 16", "SRate 3", "Rep 3 SPoll", "SRate 0", "Rep 10 CSend 24", "Until 700 SPoll", "Rep 300 CSendv 16", "Until 700 SPoll"])
+        # notifications owed, requests switched off, the client drains every byte: handling POLLOUT must still write them
+        for off in (3, 4):
+            P.append([c, "Rep 600 SEvent 24", "SRate %d" % off, "Until 700 CEvRecv", "SPoll", "Until 700 CEvRecv", "SPoll", "Until 700 CEvRecv",
+                      "SForce 4", "Until 700 CEvRecv", "SRate 1", "SPoll", "Until 700 CEvRecv"])
+            P.append([c, "Rep 400 SEvent 16", "Rep 260 CEvRecv", "SRate %d" % off, "SPoll", "Until 700 CEvRecv", "SForce 5", "Until 700 CEvRecv",
+                      "SRate 1", "SPoll", "Until 700 CEvRecv"])
         # flow control: OFF blocks sends; OFF_2 blocks only a client that asked for it; the server does not dispatch meanwhile
         P.append([c, "CSend 16", "SRate 3", "CSend 16", "CSendv 16", "CSendvRecv 16", "SPoll", "CFcMax 0", "CSend 17", "SPoll", "SRate 4", "CSend 16",
                   "CFcMax 2", "CSend 16", "CFcMax 1", "CSend 24", "SPoll", "SRate 1", "SPoll", "SPoll", "CSend 16", "SPoll"])
